@@ -39,6 +39,16 @@ theorem CRun.ok (hB : 1 ≤ cfg.B) {p : Prog} (h : CRun cfg p) : ProgOK cfg.B p 
   | nil => exact ⟨by simp [Prog.empty], by simp [Prog.empty]; omega⟩
   | push _ _ _ ih => exact ih.push _
 
+theorem CRun.wf {p : Prog} (h : CRun cfg p) : WfOK cfg p := by
+  induction h with
+  | nil => intro l hl; simp [Prog.empty, Prog.flat] at hl
+  | push _ _ hl ih =>
+    intro l' hl'
+    rw [Prog.flat_push, List.mem_append] at hl'
+    rcases hl' with hl' | hl'
+    · exact ih l' hl'
+    · simp at hl'; subst hl'; exact planLaunch_allowed cfg hl
+
 /-- the steps of an uninterrupted run are numbered `0, 1, 2, ...`: none skipped, none repeated -/
 theorem CRun.steps (hB : 1 ≤ cfg.B) {p : Prog} (h : CRun cfg p) :
     p.flat.map (stepNo cfg.B) = List.range p.flat.length := by
@@ -246,7 +256,7 @@ theorem pre_take (p : Prog) (jk : Junk) (hq : Quiet p jk) (n : Nat) :
       · left; rfl
 
 /-- the directory after any prefix of the pipeline's publications -/
-theorem pub_take (hml : MarkerLast cfg) (p : Prog) (l : Launch)
+theorem pub_take (hml : MarkerLast cfg) (p : Prog) (l : Launch) (hal : allowed cfg.mode l.wf = true)
     (hpos : l.iter = p.cs.length ∧ l.plate = p.cur.length) (n : Nat) :
     (n < (pubActions cfg l).length →
       ∃ s, applyAll ((pubActions cfg l).take n) ⟨true, treeIters cfg p (.plate none)⟩ = ⟨true, treeIters cfg p (.plate s)⟩ ∧
@@ -257,7 +267,7 @@ theorem pub_take (hml : MarkerLast cfg) (p : Prog) (l : Launch)
   unfold pubActions
   rw [hpos.1, hpos.2]
   simp only [List.length_cons, List.length_map]
-  obtain ⟨xs, m, hpubs, hxs⟩ := hml l
+  obtain ⟨xs, m, hpubs, hxs⟩ := hml l hal
   match n with
   | 0 =>
     refine ⟨fun _ => ⟨none, by simp [applyAll], by simp [JunkOK, findKind]⟩, fun h => by omega⟩
@@ -293,7 +303,7 @@ theorem invokeCore_quiet (hml : MarkerLast cfg) (hB : 1 ≤ cfg.B) {tr : List Ev
   have hm := hml.hasMarker
   have hp := h.crun.ok cfg hB
   unfold invokeCore
-  rw [planStep_quiet cfg hm hB p hp jk hq]
+  rw [planStep_quiet cfg hm hB p hp (h.crun.wf cfg) jk hq]
   by_cases hf : isFinished cfg p
   · rw [if_pos hf]
     simp only
@@ -322,7 +332,7 @@ theorem invokeCore_quiet (hml : MarkerLast cfg) (hB : 1 ≤ cfg.B) {tr : List Ev
       · -- the job directory exists, the pipeline is launched
         simp only [hd1, decide_true, Bool.not_true, Bool.false_eq_true, ↓reduceIte, List.nil_append]
         rw [hdone hd1, takeB_eq, doneB_eq]
-        have hpub := pub_take cfg hml p l hpos ((restB k (preOf p jk)).getD (pubActions cfg l).length)
+        have hpub := pub_take cfg hml p l (planLaunch_allowed cfg hpl) hpos ((restB k (preOf p jk)).getD (pubActions cfg l).length)
         by_cases hd2 : (pubActions cfg l).length ≤ (restB k (preOf p jk)).getD (pubActions cfg l).length
         · -- everything published: the step is complete
           simp only [hd2, decide_true, Bool.not_true, Bool.false_eq_true, ↓reduceIte]
@@ -381,7 +391,7 @@ theorem invokeCore_inv (hml : MarkerLast cfg) (hB : 1 ≤ cfg.B) {t : Tree} {tr 
   | plate s =>
     subst hjk
     unfold invokeCore
-    rw [planStep_junk cfg hm hB p hp s h.junk true]
+    rw [planStep_junk cfg hm hB p hp (h.crun.wf cfg) s h.junk true]
     simp only
     rw [userRemove_junk]
     refine ⟨p, (if p.cur = [] then Junk.emptyIter else Junk.none), ?_⟩
